@@ -1485,6 +1485,7 @@ Proof.
   - (* EUpgrade *) simpl. split; [reflexivity|apply sspec_nil; exact Hi].
   - (* ERegMode *) simpl. split; [reflexivity|apply sspec_same_info; [reflexivity|exact Hi]].
   - (* EAddWait *)
+    destruct (1 <? r_mode (s_reg s)); [simpl; split; [reflexivity|apply sspec_nil; exact Hi]|].
     assert (H := add_and_wait_snap_spec (s_replica s) (s_ans s) (s_reg s) place snap Hi).
     destruct (add_and_wait_snap (s_ans s) (s_reg s) place snap) as [[res r] w]. destruct H as [H _].
     simpl. split; [reflexivity|exact H].
